@@ -58,7 +58,11 @@ pub fn evaluate_join<'a>(in_terms: &'a Vec<Unifiable>,
     let mut out = "".to_string();
     let mut first = true;
     for term in all_terms {
-        let s = format!("{}", term);
+        // A list element may be a variable. Show what it is bound to.
+        let s = match get_ground_term(&term, ss) {
+            Some(ground_term) => { format!("{}", ground_term) },
+            None => { format!("{}", term) },
+        };
         if is_punctuation(&s) {
             out += &s;
             first = false;
